@@ -16,4 +16,16 @@ theorem udp_one_event (fuel : Nat) (l : String) (s s' : RState) (r : Ret) (rest 
     ∃ en, t = .cb "OnTraffic" l data.length en src :=
   Proofs.ReactorLife.udp_one_event fuel l s s' r rest n src data t ht h
 
+/-! Non-vacuity: a recorded UDP round (one datagram of three bytes from 127.0.0.1) is accepted; the same round with an
+OnTraffic that shows two readable bytes is rejected. -/
+def exState : RState := { cfg := { isET := false, chunk := 0, rbc := 2048 } }
+
+example : (acceptRound exState [.enter "accept" "L0" "", .enter "readUDP" "L0" "",
+    .sysRecvfrom "L0" 3 "nil" "inet4:7f000001:33991" [10, 11, 12],
+    .cb "OnTraffic" "L0" 3 true "inet4:7f000001:33991", .ret none 0]).toOption.isSome = true := by decide +kernel
+
+example : (acceptRound exState [.enter "accept" "L0" "", .enter "readUDP" "L0" "",
+    .sysRecvfrom "L0" 3 "nil" "inet4:7f000001:33991" [10, 11, 12],
+    .cb "OnTraffic" "L0" 2 true "inet4:7f000001:33991", .ret none 0]).toOption.isSome = false := by decide +kernel
+
 end Gnet.Props.C08
